@@ -11,7 +11,7 @@ def coq_mismatches_par(ctx, name, header, cases, fns, shard, workers=4):
 
     def one(ic):
         i, chunk = ic
-        return i, coq_mismatches(ctx, "%s_%d" % (name, i), header, chunk, fns, shard=shard)
+        return i, coq_mismatches(ctx, "%s_%d" % (name, i), header, chunk, fns, shard=shard, timeout=200 if ctx.quick() else 850)
     with cf.ThreadPoolExecutor(max_workers=workers) as ex:
         for i, res in ex.map(one, chunks):
             for k in range(len(fns)):
@@ -32,7 +32,7 @@ Open Scope N_scope.
 Inductive case :=
 | CRun (limit : N) (prog : list sinstr) (o : sobs)
 | CAdv (limit : N) (prog : list sinstr) (pre : N) (ops : list sop) (o : sobs)
-| CLife (limit : N) (evs : list lev) (obs : list sobs).
+| CLife (limit : N) (fuel : N) (evs : list lev) (obs : list sobs).
 Definition res_of (r : option err) : sres :=
   match r with None => ROk | Some (ECancel x) => RCancelled x | Some (EOther _) => RErr end.
 Fixpoint size (p : list sinstr) : N :=
@@ -47,17 +47,20 @@ Definition obs_of (st : status sstate) (tr : list event) : sobs :=
   end.
 Definition tick_of (o : sop) : tick := match o with SCancel r => TCancel r | SUncancel => TUncancel end.
 Definition sched_of (fuel : nat) := repeat TRun fuel.
-Definition to_hev (limit : N) (e : lev) : hevent sstate :=
+Definition to_hev (fuel : N) (e : lev) : hevent sstate :=
   match e with
   | LCancel r => HEvCancel r
   | LUncancel => HEvUncancel
-  | LExec p => HEvExec (mkS p None) (sched_of (fuel_of limit p))
+  | LSetMax n => HEvSetMax n
+  | LRead => HEvRead
+  | LExec p => HEvExec (mkS p None) (sched_of (N.to_nat fuel))
   end.
 Fixpoint hobs_list (l : list hobs) : list sobs :=
   match l with
   | [] => []
   | OExec r s tr :: rest => mkObs (res_of r) s (N.of_nat (count_ev is_builtin tr)) :: hobs_list rest
   | OOp _ :: rest => hobs_list rest
+  | ORead n :: rest => mkObs RRead n 0 :: hobs_list rest
   | OStuck _ :: rest => mkObs RDiverge 0 0 :: hobs_list rest
   end.
 Definition eff (limit : N) := if limit =? 0 then max_uint64 else limit.
@@ -70,9 +73,9 @@ Definition model_ok (c : case) : bool :=
       let (st, tr) := s_run (s_start (set_max_execution_steps new_thread limit) p)
                             (sched_of (N.to_nat pre) ++ map tick_of ops ++ sched_of (fuel_of limit p)) in
       sobs_eqb (obs_of st tr) o
-  | CLife limit evs obs =>
+  | CLife limit fuel evs obs =>
       let (t, l) := life sstate s_dispatch s_host true (fun _ => false)
-                         (set_max_execution_steps new_thread limit) (map (to_hev limit) evs) in
+                         (set_max_execution_steps new_thread limit) (map (to_hev fuel) evs) in
       list_eqb sobs_eqb (hobs_list l) obs
   end.
 Definition spec_ok (c : case) : bool :=
@@ -80,7 +83,7 @@ Definition spec_ok (c : case) : bool :=
   | CRun limit p o =>
       match spec_exec (eff limit) p [] 0 0 with (r, s, n, _) => sobs_eqb (mkObs r s n) o end && budget_ok limit o
   | CAdv limit p pre ops o => true   (* rewritten by the check as a CRun with the ops inside the built-in *)
-  | CLife limit evs obs => list_eqb sobs_eqb (spec_life (eff limit) evs [] 0) obs
+  | CLife limit _ evs obs => list_eqb sobs_eqb (spec_life limit false evs [] 0) obs
   end.
 """
 
@@ -149,6 +152,10 @@ def run(ctx):
             what = l["viol"]
             if k == "sweep":
                 key = "sweep:" + ("limit-exceeded" if "limit" in what else "result")
+            elif k == "life":
+                key = "life:" + ("watchdog" if "watchdog" in what else "started-while-cancelled" if "started while cancelled" in what else what.split(":")[0].split(" ")[0])
+                if any(e["ev"] == "setmax" for e in l["life"]):
+                    key += ":with-SetMaxExecutionSteps"
             elif k == "inj":
                 key = "inject:" + ("other-goroutine" if l.get("other") else "in-builtin") + ":" + "".join("U" if o["c"] == 0 else "C" for o in l["ops"])
             else:
@@ -174,15 +181,24 @@ def run(ctx):
                 refs.append(l)
         elif k == "life":
             evs, ob = [], []
+            maxlim, maxt = l["n"], 1
             for e in l["life"]:
                 if e["ev"] == "cancel":
                     evs.append("LCancel %d" % e["c"])
                 elif e["ev"] == "uncancel":
                     evs.append("LUncancel")
+                elif e["ev"] == "setmax":
+                    evs.append("LSetMax %d" % e.get("n", 0))
+                    maxlim = max(maxlim, e.get("n", 0) if e.get("n", 0) < 10 ** 9 else 0)
+                elif e["ev"] == "read":
+                    evs.append("LRead")
+                    ob.append("(mkObs RRead %d 0)" % e.get("n", 0))
                 else:
                     evs.append("LExec %s" % script(e["shape"], e.get("plan") or {}))
                     ob.append(obs(e["obs"]))
-            terms.append("(CLife %d [%s] [%s])" % (l["n"], "; ".join(evs), "; ".join(ob)))
+                    maxt = max(maxt, e["shape"]["t"])
+            fuel = 3 * (maxlim + maxt) + 60
+            terms.append("(CLife %d %d [%s] [%s])" % (l["n"], fuel, "; ".join(evs), "; ".join(ob)))
             refs.append(l)
     ctx.log("harness: %d lines, %d Go-oracle violations, %d cases for Coq" % (len(lines), nviol, len(terms)))
     bad_model, bad_spec = coq_mismatches_par(ctx, "c07_cases", HEADER, terms, ["model_ok", "spec_ok"], shard=2000 if ctx.quick() else 1500, workers=6)
